@@ -34,10 +34,17 @@ OWNERS = {'Branch.__init__', 'Branch.copy', 'Branch.append'}
 
 
 class K(int):
-    "mock constant: an int with .next()"
+    """mock constant: the n-th item of the (subscript, index) sort order over two indexes (R0 ties next() to that
+    order); it also carries the coordinates, so a maximum taken by another key (index first) shows"""
 
     def next(self):
         return K(int(self) + 1)
+
+    index = property(lambda s: int(s) % 2)
+    subscript = property(lambda s: int(s) // 2)
+    spec = property(lambda s: (int(s) % 2, int(s) // 2))
+    coords = spec
+    sort_tuple = property(lambda s: (int(s) // 2, int(s) % 2))
 
     def __repr__(self):
         return f'c{int(self)}'
@@ -107,7 +114,7 @@ def fold_append(ctx, rep, R):
     g['Emsg'] = Obj('Emsg', IllegalState=lambda *a: Exception('IllegalState'))
     BranchNS = Obj('Branch', Events=Obj('Events', AFTER_ADD='AFTER_ADD', AFTER_CLOSE='AFTER_CLOSE'))
     g['Branch'] = BranchNS
-    it = Interp(g, where='proof/common.py Branch.append')
+    it = Interp(g, where='proof/common.py Branch.append', modtree=m.trees[COMMON])
     U = range(5 if rep.tier == 'thorough' else 4)       # thorough: a 5-element universe of constants/worlds
     n = 0
     problems = collections.OrderedDict()
